@@ -1,5 +1,6 @@
-import ApolloModel.Proofs.ParserTree32
+import ApolloModel.Proofs.ParserTree34
 import ApolloModel.Proofs.ParserTreeDef13
+import ApolloModel.Proofs.ParserTreeInj2
 import ApolloModel.Proofs.AstDocument3
 import ApolloModel.Proofs.AstText7
 import ApolloModel.Proofs.AstText8
@@ -720,6 +721,24 @@ theorem document_dispatch_cases (n : Nat) (s s' : PState) (t : Parse.Tok) (rest 
          (Parse.operationDefinition n).run sP = .ok () s'))) :=
   Parse.documentDispatch_cases n s s' t rest st hc ht h hnd
 
+/-- **Stage (v), injectivity: the tokens determine the definition.**  If the tokens consumed for an accepted loose
+    type-system definition or extension `l` (`l.wf`: the facts the parser establishes) are the tokens the serializer
+    writes for a well-formed `d`, then what `from_cst` makes of `l` is `d`.  Proof through the reference parser: on
+    `l.toks` it returns `looseConv l` (a leading `&` / `|` is accepted and not represented) or fails (a root operation
+    type without its named type) — `Parse.loose_parse` —, on `tDefinition false d` it returns `d`
+    (`definition_roundtrip`); covers all fifteen constructors. -/
+theorem type_system_tokens_determine_definition (l : Parse.LooseDef) (d : Definition) (hw : l.wf = true)
+    (hd : wfDefinition d = true) (h : l.toks = tDefinition false d) : FromCst.looseConv l = d :=
+  Parse.loose_tokens_determine_definition l d hw hd h
+
+/-- **Stage (v), injectivity, strict form.**  Under the same hypotheses the accepted loose definition uses neither
+    liberty: `l.strict = some d` — a leading `&` / `|` would make the token list differ from the serializer's (the same
+    tokens without it are the serializer's, too), a root operation type without its named type makes the reference
+    parser fail. -/
+theorem type_system_tokens_force_strict (l : Parse.LooseDef) (d : Definition) (hw : l.wf = true)
+    (hd : wfDefinition d = true) (h : l.toks = tDefinition false d) : l.strict = some d :=
+  Parse.loose_tokens_strict l d hw hd h
+
 end PipelineTypeSystem
 
 section PipelineWhole
@@ -826,6 +845,54 @@ theorem from_cst_agrees_with_reference_parser_refuted : ¬ from_cst_agrees_with_
   have h1 := h "schema { query: }" from_cst_agreement_fails_on_incomplete_root_operation.1
   rw [from_cst_agreement_fails_on_incomplete_root_operation.2.1] at h1
   cases h1
+
+theorem wfDefinitions_mem : ∀ (ds : List Definition), wfDefinitions ds = true → ∀ x ∈ ds, wfDefinition x = true
+  | [], _, x, hx => by cases hx
+  | d :: r, h, x, hx => by
+    simp only [wfDefinitions, Bool.and_eq_true] at h
+    rcases List.mem_cons.mp hx with rfl | hx
+    · exact h.1
+    · exact wfDefinitions_mem r h.2 x hx
+
+/-- **pipeline_print_parse_document — serialize, then the REAL pipeline, gives the document back.**  For every
+    configuration (white-space indentation prefix or none, any level) and every well-formed non-empty document `d :: r`
+    of ALL 17 definition kinds (names, IntValues, FloatValues of the grammar's syntax): the printed text is accepted by
+    the CST parser model without error, and `Document::from_cst` on its tree returns the document ITSELF.
+    `its` is the document in builderB's completeness language (C05 `strict_document_accept_complete`): the same
+    definitions, `strictItems its = some [(output_empty, d), (false, r₁), …]`, within the recursion limit (`itemFit rl`) and
+    each definition allowed before the first token of the next (`DocFollowOk`, the follow guard of C05).
+    How: `text_lexes_back_full` (text), `token_view_bridge` (token views), builderB's completeness run and the tree
+    calculus on the SAME run (`Parse.docLoop_trG`: each dispatch consumes exactly the tokens of the next printed
+    definition, so the parser's decomposition IS the printed one — greediness without exporting follow tokens),
+    builderA's `loose_tokens_determine_definition` (the tokens of a type-system item determine what `from_cst` makes
+    of it, the two liberties included), `Document::from_cst` on the DOCUMENT root. -/
+theorem pipeline_print_parse_document (pre : Option Ast.Str) (level : Nat) (d : Definition) (r : List Definition)
+    (hwf : wfDefinitions (d :: r) = true) (hpre : ∀ p, pre = some p → p.all Apollo.Strs.isWs = true)
+    (hn : NamesWf (docSegs pre level (d :: r))) (hi : IntsSpec (docSegs pre level (d :: r)))
+    (hf : FloatsSpec (docSegs pre level (d :: r)))
+    (rl : Nat) (its : List Parse.DocItem)
+    (hstrict : Parse.strictItems its = some ((outputEmptyAtStart pre level, d) :: r.map (fun x => (false, x))))
+    (hfit : ∀ i ∈ its, Parse.itemFit rl i) (hfol : Parse.DocFollowOk its) :
+    (parse .document none rl (serializeDocument pre level (d :: r)).out).errors = [] ∧
+    ∃ root, (parse .document none rl (serializeDocument pre level (d :: r)).out).outcome = .tree root ∧
+      (FromCst.fromCst root).1 = d :: r := by
+  have hlex := text_lexes_back_full pre level (d :: r) hpre hn hi hf
+  rw [toksOf_cDocument, tDocument_items] at hlex
+  obtain ⟨hclean, ts, e, hsig, he, hx⟩ := (Parse.sigToks_src_iff _ _).mp hlex
+  have hne : its ≠ [] := by
+    rintro rfl
+    simp [Parse.strictItems] at hstrict
+  have hw : ∀ a ∈ ((outputEmptyAtStart pre level, d) :: r.map (fun x => (false, x)) : List (Bool × Definition)),
+      wfDefinition a.2 = true := by
+    intro a ha
+    rcases List.mem_cons.mp ha with rfl | ha
+    · exact wfDefinitions_mem _ hwf d (by simp)
+    · obtain ⟨x, hx', rfl⟩ := List.mem_map.mp ha
+      exact wfDefinitions_mem _ hwf x (by simp [hx'])
+  obtain ⟨herr, root, hroot, hconv⟩ := Parse.pipeline_strict_document rl _ its _ hstrict hw hne hfit hfol ts e hclean hsig he hx
+  refine ⟨herr, root, hroot, ?_⟩
+  rw [hconv]
+  simp [List.map_map, Function.comp_def]
 
 end PipelineWhole
 
